@@ -19,7 +19,7 @@ GEN = ("random well-formed histories from the seeded generator (tools/gen_engine
        "incl. equal values, expert nodes with scripted drivers; 8-60 actions each. ")
 
 PROPS = {
-    "C01": spec(["IncrVerif.Props.C01", "IncrVerif.Props.C03Order", "IncrVerif.Props.C01Global", "IncrVerif.Props.C01History", "IncrVerif.Props.C01MapRef", "IncrVerif.Props.C03Nested"], [("static", 0.35), ("bind", 0.45), ("general", 0.2)], ["api", "read"],
+    "C01": spec(["IncrVerif.Props.C01", "IncrVerif.Props.C03Order", "IncrVerif.Props.C01Global", "IncrVerif.Props.C01History", "IncrVerif.Props.C01MapRef", "IncrVerif.Props.C03Nested", "IncrVerif.Props.C01Full"], [("static", 0.35), ("bind", 0.45), ("general", 0.2)], ["api", "read"],
                 GEN + "C01 histories use only equality-respecting cutoffs and pure map_with_old machines (the property's proviso); "
                 "non-trivial = distinct history with at least two successful observer reads and one node function invocation",
                 c01_safe=True),
@@ -35,7 +35,7 @@ PROPS = {
                 "join/bind pattern (select one of several targets by the driver's input, always or only when new), add + remove by position, "
                 "duplicate dependencies on one child, make_stale, dependencies added from outside while observed, observer churn; "
                 "non-trivial = distinct history in which an expert node was recomputed"),
-    "C03": spec(["IncrVerif.Props.C03", "IncrVerif.Props.C03Order", "IncrVerif.Props.C03Nested"], [("bind", 0.7), ("general", 0.3)], ["api", "ev", "read", "snap"],
+    "C03": spec(["IncrVerif.Props.C03", "IncrVerif.Props.C03Order", "IncrVerif.Props.C03Nested", "IncrVerif.Props.C01Full"], [("bind", 0.7), ("general", 0.3)], ["api", "ev", "read", "snap"],
                 GEN + "both build profiles; generations are reconstructed from the trace (closure runs in order, consecutive node indices); "
                 "non-trivial = distinct history in which a bind closure ran at least twice",
                 builds=("debug", "release"), nq=200),
